@@ -6,6 +6,7 @@ TLC-generated behaviours are replayed on the real KeyedStateStore (+ TimerStore)
 goroutines driven through the dkv gates (Mode "store"), and on a real operator.Operator whose handler is the harness
 (Mode "operator")."""
 import json
+from concurrent.futures import ThreadPoolExecutor
 import vlib
 
 RULE = ("TLC checks EncodingOK (composite keys of the aliasing-hostile tables are injective, per-key prefixes prefix-free, timers "
@@ -53,36 +54,45 @@ def consts(**kw):
     return c
 
 
-def exhaustive(c, conc, cs, label, invariants=None, properties=None, must_hold=True, timeout=900):
+def par(jobs, width=4):
+    """run the thunks concurrently (each starts its own single-purpose TLC), results in order"""
+    with ThreadPoolExecutor(max_workers=width) as ex:
+        return [f.result() for f in [ex.submit(j) for j in jobs]]
+
+
+def tlc(conc, cs, invariants=None, properties=None, timeout=900, workers=None):
     files, extra = mc(conc, cs)
-    r = vlib.run_tlc("KeyedStateMC", files=files, timeout=timeout, name="KeyedState-ex",
-                     cfg=dict(constants=cs, invariants=INVS if invariants is None else invariants,
-                              properties=PROPS if properties is None else properties, view="view", extra=extra))
-    c.add_tlc(r, "%s (table %d)" % (label, conc), must_hold=must_hold)
+    return vlib.run_tlc("KeyedStateMC", files=files, timeout=timeout, name="KeyedState-ex", workers=workers,
+                        cfg=dict(constants=cs, invariants=INVS if invariants is None else invariants,
+                                 properties=PROPS if properties is None else properties, view="view", extra=extra))
+
+
+def exhaustive(c, conc, cs, label, timeout=900):
+    r = tlc(conc, cs, timeout=timeout)
+    c.add_tlc(r, "%s (table %d)" % (label, conc))
     return r
 
 
-def static(c, conc, nk=5, nn=3, ne=3, nt=3):
-    """EncodingOK is a constant-level formula: one initial state suffices"""
+def static_and_self_test(c, nk=5, nn=3, ne=3, nt=3):
+    """EncodingOK is a constant-level formula (one initial state suffices), checked for every table with all its cells.
+    Non-vacuity: with one ingredient of the encoding removed TLC must refute EncodingOK and find a behaviour violating StoreEq."""
     cs = consts(NK=nk, NN=nn, NE=ne, NT=nt, MaxMut=0, MaxBatch=1, MaxLen=0)
-    return exhaustive(c, conc, cs, "EncodingOK %dx%dx%d cells, %d timer times" % (nk, nn, ne, nt), invariants=["TableSane", "EncodingOK"], properties=[],
-                      timeout=120)
-
-
-def self_test(c):
-    """non-vacuity: with one ingredient of the encoding removed TLC must find a counterexample"""
-    for dev, dyn in (("LenPrefixed", True), ("NsLenPrefixed", True), ("SchemaSplit", True)):
-        cs = consts(MaxMut=2, MaxTimers=1, **{dev: False})
-        files, extra = mc(0, cs)
-        r = vlib.run_tlc("KeyedStateMC", files=files, timeout=120, name="KeyedState-self",
-                         cfg=dict(constants=cs, invariants=["EncodingOK"], view="view", extra=extra))
-        if r.ok or "EncodingOK" not in (r.error or "") + (r.violated or ""):
-            c.errors.append("self-test: EncodingOK still holds with %s = FALSE (%s %s)" % (dev, r.error, r.violated))
-        r = vlib.run_tlc("KeyedStateMC", files=files, timeout=120, name="KeyedState-self",
-                         cfg=dict(constants=cs, invariants=["StoreEq", "FetchEq"], properties=PROPS, view="view", extra=extra))
-        if r.violated not in ("StoreEq", "FetchEq", "OnlyOwnMutations"):
-            c.errors.append("self-test: no counterexample to StoreEq/FetchEq with %s = FALSE (%s %s)" % (dev, r.error, r.violated))
-        c.extra.setdefault("self_tests", []).append(dict(removed=dev, violated=r.violated))
+    devs = ("LenPrefixed", "NsLenPrefixed", "SchemaSplit")
+    jobs = [(lambda conc=conc: tlc(conc, cs, ["TableSane", "EncodingOK"], [], 120, 2)) for conc in range(len(tables()))]
+    for dev in devs:
+        ds = consts(MaxMut=2, MaxTimers=1, **{dev: False})
+        jobs.append(lambda ds=ds: tlc(0, ds, ["EncodingOK"], [], 120, 2))
+        jobs.append(lambda ds=ds: tlc(0, ds, ["StoreEq", "FetchEq"], PROPS, 120, 4))
+    rs = par(jobs, 6)
+    for conc in range(len(tables())):
+        c.add_tlc(rs[conc], "EncodingOK %dx%dx%d cells, %d timer times (table %d: %s)" % (nk, nn, ne, nt, conc, tables()[conc]["name"]))
+    for i, dev in enumerate(devs):
+        a, b = rs[len(tables()) + 2 * i], rs[len(tables()) + 2 * i + 1]
+        if a.ok or "EncodingOK" not in (a.error or "") + (a.violated or ""):
+            c.errors.append("self-test: EncodingOK still holds with %s = FALSE (%s %s)" % (dev, a.error, a.violated))
+        if b.violated not in ("StoreEq", "FetchEq", "OnlyOwnMutations"):
+            c.errors.append("self-test: no counterexample to StoreEq/FetchEq with %s = FALSE (%s %s)" % (dev, b.error, b.violated))
+        c.extra.setdefault("self_tests", []).append(dict(removed=dev, violated=b.violated))
 
 
 def generate(c, conc, cs, num, depth, seed, check=True):
@@ -109,8 +119,8 @@ def sim_consts(nk, maxmut, maxlen, **kw):
     return cs
 
 
-def replay_gen(c, mode, conc, cs, num, seed, label, memcap=60, l0=2, **hk):
-    behs, r = generate(c, conc, cs, num, cs["MaxLen"] + 5, seed)
+def replay_gen(c, mode, conc, cs, num, seed, label, memcap=60, l0=2, gen=None, **hk):
+    behs, r = gen or generate(c, conc, cs, num, cs["MaxLen"] + 5, seed)
     c.add_tlc(r, "simulate x%d %s (table %d)" % (num, label, conc))
     cfg = dict(Mode=mode, Conc=conc, NK=cs["NK"], MaxBatch=cs["MaxBatch"], MemCap=memcap, L0Trigger=l0, Chunk=40)
     if mode == "operator":
@@ -133,36 +143,39 @@ def vacuous(c, res, what, key, least):
 
 def run(c):
     q = c.tier == "quick"
-    # -- static encoding theorem, every table, all 5 x 3 x 3 cells
-    for conc in range(len(tables())):
-        static(c, conc)
-    self_test(c)
+    tables()
+    # -- static encoding theorem for every table (all 5 x 3 x 3 cells) + non-vacuity self-test
+    static_and_self_test(c)
     # -- exhaustive dynamics
     exhaustive(c, 0, consts(MaxMut=3, MaxBatch=2), "3 keys x 2 ns x 2 entry keys, <=3 mutations, batches <=2 events")
-    exhaustive(c, 0, consts(MaxMut=2, MaxBatch=1, MaxTimers=1, MaxCkpt=1, MaxRestore=1), "<=2 mutations, timer, checkpoint+restore")
+    exhaustive(c, 4, consts(NK=2, MaxMut=2, MaxBatch=1, MaxTimers=1, MaxCkpt=1, MaxRestore=1), "2 keys x 2 x 2, <=2 mutations, timer, checkpoint+restore")
     if not q:
         exhaustive(c, 0, consts(MaxMut=4, MaxBatch=2), "3x2x2, <=4 mutations, batches <=2 events", timeout=1200)
         exhaustive(c, 2, consts(MaxMut=3, MaxBatch=2, MaxTimers=1), "3x2x2, <=3 mutations, 1 timer")
         exhaustive(c, 0, consts(NN=1, MaxMut=6, MaxBatch=1, MaxRet=6), "3 keys x 1 ns x 2 entry keys, <=6 mutations", timeout=1200)
         exhaustive(c, 3, consts(NK=2, NE=1, MaxMut=6, MaxBatch=2, MaxRet=3), "2 keys x 2 ns x 1 entry key, <=6 mutations", timeout=1200)
-        exhaustive(c, 1, consts(MaxMut=2, MaxBatch=2, MaxTimers=2, MaxCkpt=1, MaxRestore=1), "3x2x2, <=2 mutations, timers, checkpoint+restore", timeout=1200)
+        exhaustive(c, 1, consts(MaxMut=2, MaxBatch=1, MaxTimers=1, MaxCkpt=1, MaxRestore=1), "3x2x2, <=2 mutations, timer, checkpoint+restore", timeout=1200)
     c.exhaustive = True
-    # -- replay on the real store
+    # -- replays: (mode, table, MemTableSize, L0 trigger, keys, behaviours, extra constants)
     n = 60 if q else 400
-    runs = [(0, 60, 2), (1, 700, 2), (2, 45, 1), (3, 90, 3), (0, 130, 2)]
-    for i, (conc, memcap, l0) in enumerate(runs):
-        nk = 3 if i % 2 == 0 else 5
-        cs = sim_consts(nk, 30, 90 if q else 140)
-        res = replay_gen(c, "store", conc, cs, n, c.seed * 100 + i, "%d keys" % nk, memcap=memcap, l0=l0)
-        vacuous(c, res, "store replay %d" % i, "fetches_nonempty", 20)
-        vacuous(c, res, "store replay %d" % i, "bg_steps", 20)
-    # -- replay on the real operator
-    oruns = [(2, 60, 2), (0, 60, 2)] if q else [(0, 60, 2), (1, 700, 2), (2, 45, 1), (3, 90, 3), (2, 130, 2)]
-    for i, (conc, memcap, l0) in enumerate(oruns):
-        nk = 5 if i % 2 == 0 else 3
-        cs = sim_consts(nk, 30, 80 if q else 140)
-        res = replay_gen(c, "operator", conc, cs, (25 if q else 250), c.seed * 100 + 50 + i, "%d keys" % nk, memcap=memcap, l0=l0)
-        vacuous(c, res, "operator replay %d" % i, "fetches_nonempty", 10)
+    jobs = [("store", 0, 60, 2, 3, n, {}), ("store", 1, 700, 2, 5, n, {}), ("store", 2, 45, 1, 5, n, {}),
+            ("store", 4, 60, 2, 5, n, dict(MaxCkpt=3, MaxRestore=2)), ("store", 3, 90, 3, 3, n, dict(MaxTimers=0)), ("store", 0, 130, 2, 5, n, {})]
+    if q:
+        jobs += [("operator", 2, 60, 2, 5, 25, {}), ("operator", 4, 60, 2, 3, 25, {})]
+    else:
+        jobs += [("store", 4, 130, 3, 3, n, dict(MaxCkpt=3, MaxRestore=2)), ("store", 2, 200, 2, 3, n, {}), ("store", 1, 1500, 1, 3, n, {}),
+                 ("operator", 0, 60, 2, 5, 250, {}), ("operator", 1, 700, 2, 3, 250, {}), ("operator", 2, 45, 1, 5, 250, {}),
+                 ("operator", 4, 90, 3, 5, 250, {}),
+                 # 65535 key groups: deploying an operator scans the database once per key group - few behaviours
+                 ("operator", 3, 130, 2, 3, 20, {})]
+    maxlen = 90 if q else 140
+    css = [sim_consts(nk, 30, maxlen, **kw) for (_, _, _, _, nk, _, kw) in jobs]
+    gens = par([(lambda i=i: generate(c, jobs[i][1], css[i], jobs[i][5], maxlen + 5, c.seed * 100 + i)) for i in range(len(jobs))], 4)
+    for i, (mode, conc, memcap, l0, nk, num, kw) in enumerate(jobs):
+        res = replay_gen(c, mode, conc, css[i], num, c.seed * 100 + i, "%d keys" % nk, memcap=memcap, l0=l0, gen=gens[i])
+        vacuous(c, res, "%s replay %d" % (mode, i), "fetches_nonempty", 10 if mode == "operator" else 20)
+        if mode == "store":
+            vacuous(c, res, "store replay %d" % i, "bg_steps", 20)
     c.assumptions += [
         "the handler answers only for keys of its batch; one operator per assembly, one source runner",
         "namespaces are valid UTF-8 strings shorter than 256 bytes (the protocol field is a string; its length is stored in one byte)",
